@@ -31,20 +31,21 @@ def list_ops(r):
                      f'c[{k}] = {v}', f'c[{k}] += 1', f'del c[{k}]', f'index_of(c, {v})', 'len(c)', f'{v} in c',
                      f'c[{k}:{k2}]', f'c.push({v})', f'c[{k}] *= 2', 'c + [1]', 'sorted(c, v => 0)', 'reversed(c)',
                      f'push(c, {v}, {v})', f'c.push(1, 2, 3)', f'insert(c, {k}, {v}, {v})', 'c | push(1, 2)', f'pop(c, {k}, 1)',
-                     'push(enumerate(c)[0][1], 9)', 'pe = enumerate(c); push(pe[0][1], 8); pe', 'q = [enumerate(c)[0]]; push(q[0][1], 6)'])
+                     'push(enumerate(c)[0][1], 9)', 'apply(pe => [push(pe[0][1], 8), pe][1], enumerate(c))', 'apply(q => push(q[0][1], 6), [enumerate(c)[0]])'])
 
 
 def dict_ops(r):
     k, v = r.choice(DICT_KEYS), r.choice(VALS)
     return r.choice([f'c[{k}]', f'c[{k}] = {v}', f'c[{k}] += 1', f'del c[{k}]', f'get(c, {k})', f'get(c, {k}, 7)', 'keys(c)',
                      'values(c)', 'items(c)', 'len(c)', f'{k} in c', f'remove(c, {k})', f'c[{k}] = c', 'pretty(c)',
-                     f'd2 = {{{k}: {v}}}; d2[{k}]', 'sorted(c)', 'str(c)', 'push(items(c)[0][1], 9)', 'pp = items(c); push(pp[0][1], 8); pp',
-                     'values(c)[0].push(7)', 'q = [items(c)[0]]; push(q[0][1], 6)'])
+                     f'd2 = {{{k}: {v}}}; d2[{k}]', 'sorted(c)', 'str(c)', 'push(items(c)[0][1], 9)', 'apply(pp => [push(pp[0][1], 8), pp][1], items(c))',
+                     'values(c)[0].push(7)', 'apply(q => push(q[0][1], 6), [items(c)[0]])'])
 
 
 def is_stmt(op):
     import re
-    return op.startswith('del ') or op.startswith('d2 =') or re.match(r'^c\[[^\]]*\] (=|\+=|-=|\*=|/=) ', op) is not None
+    return (op.startswith('del ') or re.match(r'^[a-z][a-z0-9]* = ', op) is not None
+            or re.match(r'^c\[[^\]]*\] (=|\+=|-=|\*=|/=) ', op) is not None)
 
 
 def seq_program(ops):
@@ -73,8 +74,8 @@ def host_dict(n, r, objno=1):
 def ops_cases(seed, n_random, exhaustive_depth=2, big_every=40):
     """yield (line, descr). Exhaustive short sequences over a reduced alphabet + random longer ones"""
     cases = []
-    base_l = ['push(c, 5)', 'pop(c)', 'c[0]', 'c[-1] = 9', 'del c[0]', 'insert(c, 1, 7)', 'c[1.5]', 'remove(c, 5)', 'c[5]', 'pop(c, 0)']
-    base_d = ['c["a"] = 1', 'c[1] = 2', 'c["1"]', 'c[1.0]', 'del c[1]', 'get(c, 1)', 'c["a"]', 'c[True] = 3', 'keys(c)', 'c[None] = 0; c["None"]']
+    base_l = ['push(c, 5)', 'pop(c)', 'c[0]', 'c[-1] = 9', 'del c[0]', 'insert(c, 1, 7)', 'c[1.5]', 'remove(c, 5)', 'c[5]', 'pop(c, 0)', 'get(c, 0, 7)', 'c[0] = None']
+    base_d = ['c["a"] = 1', 'c[1] = 2', 'c["1"]', 'c[1.0]', 'del c[1]', 'get(c, 1)', 'c["a"]', 'c[True] = 3', 'keys(c)', 'c[None] = 0; c["None"]', 'c["a"] = None', 'get(c, "a", 7)']
     r = random.Random(f'{seed}/ops-ex')
     for kind, base in (('L', base_l), ('M', base_d)):
         for d in range(1, exhaustive_depth + 1):
